@@ -54,10 +54,11 @@ func loadKnown(path string) ([]KnownFinding, error) {
 type Lock struct {
 	Obligations map[string]map[string]string `json:"obligations"` // property -> obligation -> status
 	Covers      map[string]map[string]string `json:"covers"`      // property -> obligation -> "sat" (reachable on the reference tree; thorough tier)
+	Sigs        map[string]*FuncSig          `json:"signatures"`  // function -> names of parameters, results and locals on the reference tree
 }
 
 func loadLock(path string) *Lock {
-	l := &Lock{Obligations: map[string]map[string]string{}, Covers: map[string]map[string]string{}}
+	l := &Lock{Obligations: map[string]map[string]string{}, Covers: map[string]map[string]string{}, Sigs: map[string]*FuncSig{}}
 	data, err := os.ReadFile(path)
 	if err == nil {
 		json.Unmarshal(data, l)
@@ -150,6 +151,9 @@ func checkMain(args []string) int {
 		return 2
 	}
 	loadS := time.Since(start).Seconds()
+	if !*writeLock {
+		v.lockSigs = loadLock(filepath.Join(*root, "obligations.lock")).Sigs
+	}
 	pr, err := v.generateProperty(id)
 	if err != nil {
 		fmt.Fprintf(os.Stderr, "UNDECIDED property=%s: %v\n", id, err)
@@ -602,6 +606,12 @@ func checkMain(args []string) int {
 				}
 			}
 			lock.Obligations[id] = m
+			if lock.Sigs == nil {
+				lock.Sigs = map[string]*FuncSig{}
+			}
+			for fnName, sg := range v.sigs {
+				lock.Sigs[fnName] = sg
+			}
 			if *tier == "thorough" {
 				cm := map[string]string{}
 				for _, cv := range covers {
